@@ -95,11 +95,11 @@ where
     kani::cover!(true, "END: harness ran to completion");
 }
 
-fn create_first<A, const UP: bool>(header_size: usize, header_align: usize)
+fn create_first<A, const UP: bool, const MAXS: usize, const MAXA: u32>(header_size: usize, header_align: usize)
 where
     A: BaseAllocator<bump_scope::settings::False> + Default,
 {
-    let layout = any_layout(40, 5);
+    let layout = any_layout(MAXS, MAXA);
     kani::assume(layout.size() > 0);
     let bump = core::mem::ManuallyDrop::new(Bump::<A, S<1, UP, false>>::unallocated());
     set_budget(1);
@@ -115,6 +115,7 @@ where
     check!(p % layout.align() == 0, "C12/C01: block misaligned");
     let c = bump.stats().current_chunk().unwrap();
     check!(p >= addr(c.content_start()) && p + layout.size() <= addr(c.content_end()), "C12: first block outside the chunk created for it");
+    kani::cover!(if UP { p > addr(c.content_start()) } else { p + layout.size() < addr(c.content_end()) }, "[pad] the first block needed alignment padding at the start of the fresh chunk");
     kani::cover!(true, "END: harness ran to completion");
 }
 
@@ -161,6 +162,10 @@ h!(c12x_slow_va_up, create_fits::<VA, S<1, true>, 3>(32, 16));
 h!(c12x_slow_va_down, create_fits::<VA, S<1, false>, 3>(32, 16));
 h!(c12x_slow_va_extra24_up, create_fits::<VA<24>, S<1, true>, 3>(32, 16));
 h!(c12x_slow_stateful_down, create_fits::<VAStateful, S<1, false>, 3>(48, 16));
-h!(c12x_first_va_up, create_first::<VA, true>(32, 16));
-h!(c12x_first_va_down, create_first::<VA, false>(32, 16));
-h!(c12x_first_stateful_up, create_first::<VAStateful, true>(48, 16));
+h!(c12x_first_va_up, create_first::<VA, true, 40, 5>(32, 16));
+h!(c12x_first_va_down, create_first::<VA, false, 40, 5>(32, 16));
+h!(c12x_first_stateful_up, create_first::<VAStateful, true, 40, 5>(48, 16));
+// chunk start only 16-aligned (interior-pointer stub): over-aligned first requests need padding in the fresh chunk
+h!(c12x_first_off48_up, create_first::<VAOff<48>, true, 64, 6>(32, 16));
+h!(c12x_first_off16_down, create_first::<VAOff<16>, false, 64, 6>(32, 16));
+h!(c12x_slow_off48_up, create_fits::<VAOff<48>, S<1, true>, 3>(32, 16));
